@@ -1,5 +1,6 @@
 import AptMirror.Props.C03
 import AptMirror.Props.C13
+import AptMirror.Lemmas.Mirror
 /-!
 # C07 — a crash at any point leaves a usable mirror; the next good run converges
 
@@ -116,5 +117,106 @@ theorem C07_partial_not_shortcut (root : Path) (f : DFile) (fs : FS) (vs : List 
 theorem C07_stale_lock (k : Lock.K) (h : Lock.Inv k) (p q : Nat) (hp : (k.procs p).pc = .inside) (hq : (k.procs q).pc = .start) :
     ((Lock.stepProc .fixed (Lock.stepProc .fixed (Lock.stepProc .fixed (Lock.stepProc .fixed k p .kill) q .step) q .step) q .step).procs q).pc = .inside :=
   Lock.C13_stale_lock_free k h p q hp hq
+
+
+/-! ## the whole run (L2): every crash point, then a good run -/
+namespace Mirror
+
+/-- **C07 (what a killed run leaves behind is harmless).** At every crash point the enumeration invariant and S1 (a file at a
+    needed path consists of bytes of the body served for that path) still hold. -/
+theorem C07_crash_invariants (t : Tree) (need : Need) (hw : WF t) (hok : NeedOK need) (hk : K need t) (k : Nat) :
+    WF (crash t need k) ∧ K need (crash t need k) := by
+  refine ⟨WF_exec _ _ hw, K_exec need _ t hk ?_⟩
+  intro op hop
+  exact runOps_ok t need hok op (List.mem_of_mem_take hop)
+
+/-- **C07 (the next good run converges).** Kill the process before any operation `k` of a run (`k` beyond the end: not at all);
+    the next run that ends without error leaves — outside skip-clean paths — exactly the tree the uninterrupted run leaves:
+    same live metadata, and at every path the same file (size and content) or no file. -/
+theorem C07_crash_rerun_converges (t : Tree) (need : Need) (hw : WF t) (hok : NeedOK need) (hk : K need t) (k : Nat) :
+    (run (crash t need k) need).dists = (run t need).dists ∧
+    ∀ q, need.keepExtra q = false → (run (crash t need k) need).pool q = (run t need).pool q := by
+  obtain ⟨hwc, hkc⟩ := C07_crash_invariants t need hw hok hk k
+  obtain ⟨a1, b1, c1, _⟩ := run_effect (crash t need k) need hwc hok
+  obtain ⟨a2, b2, c2, _⟩ := run_effect t need hw hok
+  refine ⟨by rw [a1, a2], fun q hx => ?_⟩
+  cases hkq : keep need q with
+  | false => rw [c1 q hkq, c2 q hkq]
+  | true =>
+    unfold keep at hkq
+    simp only [hx, Bool.or_false, List.any_eq_true, decide_eq_true_eq] at hkq
+    obtain ⟨n, hn, rfl⟩ := hkq
+    obtain ⟨f1, hf1, hs1, ht1⟩ := b1 n hn
+    obtain ⟨f2, hf2, hs2, ht2⟩ := b2 n hn
+    have e1 : f1.tag = n.tag := by
+      rcases ht1 with h | h
+      · exact h
+      · exact hkc n hn f1 h
+    have e2 : f2.tag = n.tag := by
+      rcases ht2 with h | h
+      · exact h
+      · exact hk n hn f2 h
+    rw [hf1, hf2]
+    cases f1; cases f2
+    simp only at hs1 hs2 e1 e2
+    rw [hs1, hs2, e1, e2]
+
+/-- **C07 (no truncated file accepted as complete).** While a body is being written — created, `j` of its chunks appended,
+    at least one non-empty chunk still to come — the file is shorter than declared, so the size short-cut of the next run
+    does not accept it: it is fetched again. -/
+theorem C07_torso_not_accepted (t : Tree) (n : PoolNeed) (hs : n.chunks.sum = n.size) (j : Nat)
+    (hrest : 0 < (n.chunks.drop j).sum) :
+    present (exec ((writeOps n).take (j + 1)) t) n = false := by
+  have htake : (writeOps n).take (j + 1) = .create n.path n.tag :: (n.chunks.take j).map (.append n.path) := by
+    simp [writeOps, List.take_succ_cons, List.map_take]
+  rw [htake, exec_cons]
+  have h1 : (step t (.create n.path n.tag)).pool n.path = some ⟨0, n.tag⟩ := by simp [step]
+  obtain ⟨a, _, _, _⟩ := appends_effect (n.chunks.take j) n.path (step t (.create n.path n.tag)) ⟨0, n.tag⟩ h1
+  unfold present
+  rw [a]
+  have hsplit : (n.chunks.take j).sum + (n.chunks.drop j).sum = n.size := by
+    rw [← hs, ← List.sum_append, List.take_append_drop]
+  simp only [Nat.zero_add, beq_eq_false_iff_ne, ne_eq]
+  omega
+
+/-- **C07 (rerun against a newer version).** If the run that was killed worked for needs `need` and the next one works for
+    `need'` (a newer upstream state), and the two agree on the body behind every path they share (pool paths are immutable),
+    the crashed tree still satisfies the hypotheses of `C08_run_content` for `need'`: the rerun produces the tree a
+    first-ever mirror of the newer version has. -/
+theorem C07_crash_then_newer (t : Tree) (need need' : Need) (hw : WF t) (hk' : K need' t)
+    (hagree : ∀ n ∈ need.pool, ∀ m ∈ need'.pool, m.path = n.path → m.tag = n.tag) (k : Nat) :
+    WF (crash t need k) ∧ K need' (crash t need k) := by
+  refine ⟨WF_exec _ _ hw, K_exec need' _ t hk' ?_⟩
+  intro op hop
+  have hmem := List.mem_of_mem_take hop
+  simp only [runOps, List.mem_append, List.mem_singleton] at hmem
+  rcases hmem with (h | h) | h
+  · obtain ⟨n, hn, ho⟩ := poolOps_mem _ _ _ h
+    unfold writeOps at ho
+    rcases List.mem_cons.mp ho with rfl | ho
+    · intro m hm hp
+      exact hagree n hn m hm hp
+    · obtain ⟨c, _, rfl⟩ := List.mem_map.mp ho
+      trivial
+  · rw [h]; trivial
+  · unfold cleanOps at h
+    obtain ⟨p, _, rfl⟩ := List.mem_map.mp h
+    trivial
+
+end Mirror
+
+/-! ### non-vacuity of the whole-run statements: a concrete tree, needs, and every crash point of its run -/
+private def needY : Mirror.Need :=
+  { mfiles := [(["dists", "s", "Release"], ⟨10, 1⟩)],
+    pool := [⟨["pool", "a.deb"], 5, 11, [2, 3]⟩, ⟨["pool", "b.deb"], 4, 12, [4]⟩],
+    keepExtra := fun _ => false }
+private def treeY : Mirror.Tree :=
+  { dists := fun _ => none,
+    pool := fun p => if p = ["pool", "old.deb"] then some ⟨9, 13⟩ else none,
+    dom := [["pool", "old.deb"]] }
+example : (Mirror.runOps treeY needY).length = 7 := by decide
+example : ∀ k ∈ List.range 9, ∀ q ∈ [["pool", "a.deb"], ["pool", "b.deb"], ["pool", "old.deb"]],
+    (Mirror.run (Mirror.crash treeY needY k) needY).pool q = (Mirror.run treeY needY).pool q := by decide
+example : (Mirror.crash treeY needY 2).pool ["pool", "a.deb"] = some ⟨2, 11⟩ ∧ Mirror.present (Mirror.crash treeY needY 2) ⟨["pool", "a.deb"], 5, 11, [2, 3]⟩ = false := by decide
 
 end AptMirror
